@@ -127,6 +127,16 @@ add("C25", "refmon", "exploration",
     "The master's serialized transaction groups are captured at the point they would be sent and applied to a second instance with the real Replayer; histories over fixed and variable buckets of all timeframes, several buckets per group, groups mixing record types (produced through the public write path with the background loop); master and replica queries must agree (variable timestamps within one resolution step).",
     REF_NOTE + " Transport is not exercised (C26).", "metamorphic comparison master vs. replica through the real replayer", "DESIGN.md 4 C25")
 
+add("C11", "refmon", "exploration",
+    "Stored histories (fixed and variable buckets, several timeframes, gaps, 2-3 year files) and many (start, end) pairs at nanosecond precision (every stored timestamp +-{0, 1 ns, 1 s, one interval}, interval and year edges, empty / inverted ranges, ranges touching no year file): the ranged query must equal the unrestricted query filtered by the property's inRange definition, in the same order. Both sides are real executions.",
+    REF_NOTE + " UTC.", "metamorphic relation between two real executions (ranged vs. filtered unrestricted query)", "DESIGN.md 4 C11")
+add("C12", "refmon", "exploration",
+    "For stored histories and ranges, Query(range, N, direction) must equal the first/last N rows of Query(range) for N in {1,2,3,n-1,n,n+1,10n, huge}, both directions, fixed and variable, gaps of more than 8192 empty slots (multi-buffer backward scan), several year files.",
+    REF_NOTE + " UTC. Queries for timeframes that are not stored are out of scope.", "metamorphic relation between two real executions (limited vs. unlimited query)", "DESIGN.md 4 C12")
+add("C13", "refmon", "exploration",
+    "Through DataService.Query (every fourth request through GRPCService.Query): destinations naming several symbols (existing, missing, duplicated, '*') must return per symbol the rows of the single-symbol request; requests with a column list must return the same rows and values with only the time columns and the requested columns; a symbol never stored must return no rows.",
+    REF_NOTE + " Column order is not asserted; what a missing symbol / unknown column may legitimately do is spelled out in the monitor.", "metamorphic relation between real executions (multi vs. single symbol, projected vs. full)", "DESIGN.md 4 C13")
+
 ALL = [json.loads(l) for l in open(os.path.join(V, "properties.jsonl"))]
 
 def main():
